@@ -194,7 +194,7 @@ def run(ctx):
         # hosts that merely START like a special host, and hosts under an interior (non-rule) node of a longer private rule
         D = build(["nip.io", "10.0.0.1.nip.io", "example.com", "localhost.example.com", "amazonaws.com", "aws.amazonaws.com", "docs.aws.amazonaws.com", "os.fedoraproject.org", "x.os.fedoraproject.org",
                    "httpbin.org", "api.httpbin.org", "https.example.org", "my_shop.example.com", "github.io", "a.github.io", "b.a.github.io", "cafe.be", "dead.beef.cafe.be"],
-                  [(), ("x",)])
+                  [(), ("x",)], queries=(None, "k=1", "next=https://example.com/login"), frags=(None, "f", "http://o.org/r"))
         ctx.sample("universe-D", [D[0]["url"], D[-1]["url"]])
         check_universe(ctx, "D", D, psl)
         if ctx.tier == "thorough":
